@@ -440,7 +440,20 @@ func jsDo(t jsonContainer, kind string, a map[string]string) (noop bool) {
 	case "cnt.increase":
 		want("cnt")
 		d, _ := strconv.ParseInt(a["d"], 10, 64)
-		t.cnt.Increase(int(d))
+		// the Go type of the operand is part of the API (convertAssertableOperand switches on it): the
+		// result must not depend on it; chosen as a function of d so that replays are deterministic
+		switch uint64(d) % 3 {
+		case 0:
+			t.cnt.Increase(int(d))
+		case 1:
+			t.cnt.Increase(d)
+		default:
+			if int64(int32(d)) == d {
+				t.cnt.Increase(int32(d))
+			} else {
+				t.cnt.Increase(d)
+			}
+		}
 	default:
 		panic("harness: unknown call kind " + kind)
 	}
